@@ -69,8 +69,9 @@ def _gen_config(rng, tier, index=0):
         "dataset": "simple" if rng.random() < 0.25 else "synthetic",
         "data_seed": rng.randrange(2 ** 31),
         "mcmc_seed": rng.choice([0, 0, 1, 11, 42, 2 ** 31 - 1]),
-        "chains": rng.choice([1, 1, 2]),
-        "steps": rng.choice([40, 60, 100]),
+        # short runs with several chains leave chains in disagreement (MCI > 0) often enough to be seen
+        "chains": rng.choice([1, 2, 3, 3]),
+        "steps": rng.choice([40, 60, 100, 9, 9, 15]),
         "report": sorted(rng.sample(["AFP", "ACP", "AOP", "SNVDP", "GL", "GL", "GP"], rng.choice([0, 1, 2, 3]))),
         "interference": rng.choice([None, "rng", "rng", "fit"]),
         "n_perm": rng.choice([1, 2]),
